@@ -104,7 +104,7 @@ env_step(void)
 }
 
 void verif_on_lock_acquire(struct lock* l) { if (!in_env) env_step(); } /* before every atomic channel operation */
-void verif_on_lock_release(struct lock* l) {}
+void verif_on_lock_release(struct lock* l) { if (!in_env) { env_step(); env_step(); } } /* and right after it: a peer can do several things in one window (e.g. commit its last frame AND raise the stop flag between an empty map and the sink's next read of the flag) */
 void verif_on_notify(struct condition_variable* cv) {}
 void
 verif_on_wait(struct condition_variable* cv, struct lock* l)
